@@ -682,6 +682,9 @@ func c07RunRaceProg(p c07RaceProg, serial bool) c07RaceRun {
 		case "idwhere":
 			return shared.Where("id >= ?", 0).Where("id < ?", 1<<40).Session(&gorm.Session{})
 		case "model":
+			if conns == 1 { // writing program: the Model object would be written by every goroutine's operations (caller's memory, not gorm's)
+				return shared.Table("c07_zoos").Session(&gorm.Session{})
+			}
 			return shared.Model(&C07Zoo{}).Session(&gorm.Session{})
 		case "prepsession": // ONE prepared-statement session used by all goroutines
 			return shared.Session(&gorm.Session{PrepareStmt: true})
@@ -714,7 +717,7 @@ func c07RunRaceProg(p c07RaceProg, serial bool) c07RaceRun {
 	}
 	if !p.Cold {
 		// warm: every operation kind, serially, on a reserved id block, before the goroutines start
-		w := &c07RaceWorker{g: 90, base: 900000, rng: rand.New(rand.NewSource(p.Seed + 5)), kinds: map[string]bool{}, ro: conns > 1, only: p.Only, nohold: nohold, hmodel: p.Handle == "model"}
+		w := &c07RaceWorker{g: 90, base: 900000, rng: rand.New(rand.NewSource(p.Seed + 5)), kinds: map[string]bool{}, ro: conns > 1, only: p.Only, nohold: nohold, hmodel: p.Handle == "model" && conns > 1}
 		if p.Family == "zoo" {
 			c07ZooSeed(setup, 89)
 		}
@@ -742,7 +745,7 @@ func c07RunRaceProg(p c07RaceProg, serial bool) c07RaceRun {
 	workers := make([]*c07RaceWorker, p.G)
 	outs := make([][]string, p.G)
 	for g := 0; g < p.G; g++ {
-		workers[g] = &c07RaceWorker{g: g, base: uint(g+1) * 10000, rng: rand.New(rand.NewSource(p.Seed*131 + int64(g))), kinds: map[string]bool{}, first: true, ro: conns > 1, only: p.Only, nohold: nohold, hmodel: p.Handle == "model"}
+		workers[g] = &c07RaceWorker{g: g, base: uint(g+1) * 10000, rng: rand.New(rand.NewSource(p.Seed*131 + int64(g))), kinds: map[string]bool{}, first: true, ro: conns > 1, only: p.Only, nohold: nohold, hmodel: p.Handle == "model" && conns > 1}
 	}
 	ident := c07Identify(shared, handles)
 	// "stampede" (half of the cold programs): every goroutine's very first action is Statement.Parse of every model type of
@@ -1211,7 +1214,9 @@ func c07GenRaceProg(rng *rand.Rand) c07RaceProg {
 	case "zoo":
 		p.Handle = []string{"db", "db", "session", "ctx", "idwhere", "model", "prepsession", "debug"}[rng.Intn(8)]
 		p.Cold = rng.Intn(4) != 0 // cold = empty per-field pools
-		if rng.Intn(2) == 0 || (p.Handle == "model" && rng.Intn(2) == 0) { // read-only on several connections: scans really overlap
+		// read-only on several connections: scans really overlap.  A handle that carries Model(&obj) shares the caller's OBJECT
+		// between the goroutines (gorm writes keys / timestamps back into it): only used by read-only programs
+		if rng.Intn(2) == 0 || p.Handle == "model" {
 			p.Conns = []int{2, 4, 8}[rng.Intn(3)]
 		}
 	default:
@@ -1377,7 +1382,11 @@ func c07RaceParent(r *Result, rng *rand.Rand, tier string) {
 	}
 	for i, pp := range probes {
 		seen := false
-		for attempt := 0; attempt < 8 && !seen; attempt++ {
+		maxAttempts := 8
+		if pp.Handle == "leadingOr" && !listed("F11-C07-where-build-swap") {
+			maxAttempts = 2 // F11 is repaired in this tree: two runs confirm that the probe stays clean
+		}
+		for attempt := 0; attempt < maxAttempts && !seen; attempt++ {
 			pp.Seed += int64(attempt) * 100
 			outs, note := c07RunRaceChild([]c07RaceProg{pp}, 60*time.Second)
 			c07JudgeChildEnd(r, []c07RaceProg{pp}, outs, note)
